@@ -434,6 +434,7 @@ type harness struct {
 	removedState *stateFileCopy
 	removedAt    int
 	convInFlight bool // a converter job is in flight: what it cached is not "current data" for the tags yet
+	detached     map[string]bool // converter -> detached from its last tag and not attached (or used on demand) since
 }
 
 type stateFileCopy struct {
@@ -765,6 +766,73 @@ func (h *harness) checkOracles(st manager.VerifState) {
 				h.complain("C06", "view answers tags %v for stream %d, evaluation of the definitions gives %v", o.tags, o.id, want)
 			}
 		}
+	}
+	// --- C06 (searches): "the result of any search using tag, service, mark or generated filters is correct even
+	//     while … are in flight": `tag:x` and `-tag:x` on a fresh view return exactly the streams the definition
+	//     of x holds / does not hold for (undecided streams are decided on demand by inlining the definition)
+	if len(st.Tags) != 0 && len(byID) != 0 {
+		sv := h.mgr.GetView()
+		for _, t := range st.Tags {
+			k, nm, okn := strings.Cut(t.Name, "/")
+			if !okn {
+				continue
+			}
+			want := map[bool][]int{}
+			determined := true
+			for id := uint64(0); id < st.NextStreamID && determined; id++ {
+				ft := byID[id]
+				if ft == nil {
+					continue
+				}
+				r, ok := h.evalDef(t.Definition, id, ft, 0)
+				if !ok {
+					determined = false
+				}
+				want[r] = append(want[r], int(id))
+			}
+			if !determined {
+				continue
+			}
+			// the normal form of a NEGATED undecided tag whose definition refers to further undecided tags grows
+			// exponentially (inlining + De Morgan; C14's quantifier names that): those searches are not issued
+			nested := false
+			for _, rn := range append(append([]string(nil), t.MainTags...), t.SubQueryTags...) {
+				for _, t2 := range st.Tags {
+					if t2.Name == rn && len(t2.Uncertain) != 0 {
+						nested = true
+					}
+				}
+			}
+			for _, neg := range []bool{false, true} {
+				if neg && nested && len(t.Uncertain) != 0 {
+					continue
+				}
+				text := k + ":" + nm + " sort:id"
+				if neg {
+					text = "-" + text
+				}
+				q, err := query.Parse(text)
+				if err != nil {
+					continue
+				}
+				got := []int{}
+				_, _, _, err = sv.SearchStreams(context.Background(), q, func(sc manager.StreamContext) error {
+					got = append(got, int(sc.Stream().ID()))
+					return nil
+				}, manager.Limit(1000, 0))
+				if err != nil {
+					h.complain("C06", "search %q fails: %v", text, err)
+					continue
+				}
+				sort.Ints(got)
+				w := want[!neg]
+				if fmt.Sprint(got) != fmt.Sprint(append([]int{}, w...)) {
+					h.complain("C06", "search %q returns streams %v, the definition %q of %s gives %v", text, got, t.Definition, t.Name, w)
+				}
+			}
+		}
+		sv.Release()
+		h.mgr.VerifDump()
 	}
 	// --- C11 (under scheduled job completions): the tag graph stays well-formed and the
 	//     referenced-by bookkeeping mirrors the definitions
@@ -1308,6 +1376,47 @@ func (h *harness) step(line string) (event, error) {
 			ev["merged"] = fresh
 		}
 	}
+	// --- C16 "detaching stops further runs": once a converter has been detached from its last tag it converts
+	//     nothing until it is attached again. (Output cached on demand through a view, `vdata`, for a converter that
+	//     is attached to no tag is re-converted after an import — "the converter runs again" — so the clock
+	//     restarts there.)
+	{
+		attachedIn := func(vs manager.VerifState, cn string) bool {
+			for _, t := range vs.Tags {
+				for _, c := range t.Converters {
+					if c == cn {
+						return true
+					}
+				}
+			}
+			return false
+		}
+		if h.detached == nil {
+			h.detached = map[string]bool{}
+		}
+		for cn, ids := range st.Cached {
+			was, is := attachedIn(before, cn), attachedIn(st, cn)
+			if is || (f[0] == "vdata" && len(f) > 2 && f[2] == cn) {
+				h.detached[cn] = false
+				continue
+			}
+			if was && !is {
+				h.detached[cn] = true
+			}
+			if !h.detached[cn] {
+				continue
+			}
+			had := map[uint64]bool{}
+			for _, id := range before.Cached[cn] {
+				had[id] = true
+			}
+			for _, id := range ids {
+				if !had[id] {
+					h.complain("C16", "converter %s ran for stream %d although it was detached from its last tag and not attached again", cn, id)
+				}
+			}
+		}
+	}
 	h.prev = st
 	return ev, nil
 }
@@ -1660,15 +1769,40 @@ func gen(seed uint64, n int, w io.Writer) {
 		}
 		return r.Intn(len(g.flows))
 	}
-	// every third scenario opens with a directed prologue (random parameters) that sets up one of the
+	// every second scenario opens with a directed prologue (random parameters) that sets up one of the
 	// regime interactions the properties name; the random part then continues from that state
-	if r.Chance(1, 3) {
+	if r.Chance(1, 2) {
 		fl := r.Intn(4)
 		word := lib.Pick(r, words)
 		tagPort := func() string {
 			return lib.Pick(r, []string{fmt.Sprintf("sport:%d", 2000+fl), fmt.Sprintf("cport:%d", 1000+fl), fmt.Sprintf("sport:%d", 1000+fl)})
 		}
-		switch r.Intn(9) {
+		switch r.Intn(11) {
+		case 10: // a stream is queued for a converter (its output was invalidated while a converter job is parked),
+			// leaves the tag, and the converter is detached from its last tag while the entry is still queued
+			fmt.Fprintf(w, "pcap q0.pcap 0:100:c:%s 1:101:c:%s\nimport q0.pcap\nrel import\n", word, word)
+			fmt.Fprintf(w, "addtag mark/m red id:-1\nupdconv mark/m conv1\nmarkadd mark/m 0,1\n")
+			fmt.Fprintf(w, "pcap q1.pcap %d:300:c:%s\nimport q1.pcap\nrel import\n", r.Intn(2), lib.Pick(r, words))
+			fmt.Fprintf(w, "%s\n", lib.Pick(r, []string{"markdel mark/m 1", "markdel mark/m 0", "markdel mark/m 0,1"}))
+			fmt.Fprintf(w, "%s\nrel convert\n", lib.Pick(r, []string{"updconv mark/m -", "deltag mark/m", "updconv mark/m -"}))
+			g.tags["mark/m"] = &genTag{}
+			g.flows[0], g.flows[1] = true, true
+		case 9: // an import (new stream + continuation of an old one) completes while a merge job is parked;
+			// optionally a view is opened before / during the merge and held across both completions
+			fmt.Fprintf(w, "pcap q0.pcap 0:100:c:%s\nimport q0.pcap\nrel import\n", word)
+			if r.Chance(1, 3) {
+				fmt.Fprintf(w, "vopen 0\n")
+			}
+			fmt.Fprintf(w, "pcap q1.pcap 1:200:c:%s 2:201:c:%s\nimport q1.pcap\nrel import\n", word, word)
+			if r.Chance(1, 3) {
+				fmt.Fprintf(w, "vopen 1\n")
+			}
+			fmt.Fprintf(w, "pcap q2.pcap 3:300:c:%s %d:301:c:%s\nimport q2.pcap\nrel import\n", word, r.Intn(3), lib.Pick(r, words))
+			if r.Chance(1, 3) {
+				fmt.Fprintf(w, "vopen 2\n")
+			}
+			fmt.Fprintf(w, "rel merge\n")
+			g.flows[0], g.flows[1], g.flows[2], g.flows[3] = true, true, true, true
 		case 8: // a tag relates every stream to one whose converter output holds a word; that output appears later
 			fmt.Fprintf(w, "pcap q0.pcap 0:100:c:foo 1:101:c:%s 2:102:c:foo\nimport q0.pcap\nrel import\n", lib.Pick(r, []string{"bar", "foo", "GET"}))
 			fmt.Fprintf(w, "addtag tag/b red @s:cdata:f00 %s\nrel tag\n", lib.Pick(r, []string{"cbytes:@s:cbytes@", "sbytes:@s:sbytes@"}))
